@@ -129,9 +129,18 @@ def counting_loop(ctx, cname, ncounters):
     return tr, lid, member, inloop[0] if inloop else None, augs
 
 
+def ctor(ctx, cname, params):
+    ti = ctx.trace(cname, "__init__")
+    at = ti.final.attrs if ti.final is not None else {}
+    for k in params:
+        ctx.ob("FWD-init", cname + ".__init__", "constructor parameter %s is kept" % k, at.get(k) == P(k), q.short(at.get(k), 40) if at.get(k) is not None else "unset")
+
+
 def minimum(ctx):
     cname = "MinimumApprovalElection"
     site = cname + ".__call__"
+    ctor(ctx, cname, ("approvals_needed",))
+    ctor(ctx, "OrderedApprovalElection", ("approvals_needed", "confirmations_needed"))
     tr, lid, member, ret, augs = counting_loop(ctx, cname, 1)
     if ret is None:
         return
@@ -257,6 +266,15 @@ def confirmed(ctx):
     for e in cm:
         ok = e.aug == ("Add", const(1)) and e.path == (("item", i1),)
         ctx.ob("WR", site, "in the vote loop a counter is only incremented by one, at the member's own index", ok, "", e)
+    for e in augs:
+        ctx.ob("FRM", site, "a vote adds exactly one to its tally", e.aug == ("Add", const(1)), "tally %s changed by %s" % (e.name, q.short(e.aug[1], 30) if e.aug else None), e)
+    pre1 = v1["pre"].locs
+    for nm in cnames:
+        ctx.ob("FRM", site, "the %s tally starts at 0" % ("drift" if nm == drift_name else "warning"), pre1.get(nm) == const(0), q.short(pre1.get(nm), 30) if pre1.get(nm) is not None else "unset")
+    ti = ctx.trace(cname, "__init__")
+    at = ti.final.attrs if ti.final is not None else {}
+    for k, w in (("sensitivity", P("sensitivity")), ("wait_time", P("wait_time")), ("wait_period_counters", T.NONE)):
+        ctx.ob("FWD-init", cname + ".__init__", "%s after construction" % k, at.get(k) == w, q.short(at.get(k), 40) if at.get(k) is not None else "unset")
     want = {("drift", 0): (1, 0, 1), ("drift", 1): (1, 0, 1), ("warning", 0): (0, 1, 0), ("warning", 1): (0, 1, 0), ("other", 1): (1, 0, 1), ("other", 0): (0, 0, 0)}
     bad = []
     for (sname, cz), exp in want.items():
